@@ -45,7 +45,7 @@ o P2 240102#N2 todo with prio w0
 - 240103#N3 multi line w0
   * bullet b0
 - 240103#U3 untouched three
-- 240401 240104#N4 stamped  earlier w0
+- 240401 240104#N4 stamped  earlier, see [240401#0A] of 240401 w0
   * n4 bullet  spaced
   continued line of n4
 - 240104#U4 untouched four
